@@ -67,7 +67,27 @@ Inductive query :=
 | QF1 (g : str) (v : Z)       (* group = "g" and val >= v sort by name *)
 | QF2 (t : str)               (* anyOf(tags) = "t" *)
 | QF3 (v : Z)                 (* val < v sort by val desc *)
-| QCount.                     (* number of items *)
+| QCount                      (* number of items *)
+(* -- added for the shared-mutable-object classes (seeded/C18-1, C18-2): listings through the empty
+      filter with the reader's own paging, dotted (composite) symbols, set functions over link and
+      fk-set symbols, sub-queries, sorted pages; on the item store and on the group store -- *)
+| QList (s l : Z)             (* ast.Parse("") + SetSkip s + SetLimit l (negative = not set) + QueryIdsC *)
+| QAll                        (* QueryIds(tx, "") *)
+| QF4 (g : str)               (* group.name = "G<g>"                       dotted fk symbol *)
+| QF5 (g : str)               (* anyOf(watchers.name) = "G<g>"             dotted set symbol (link, then field) *)
+| QF6 (t : str)               (* anyOf(group.items.tags) = "t"             fk, fk set, set *)
+| QF7 (n : str)               (* anyOf(watchers.items.name) = "n"          link set, fk set, field *)
+| QF8 (i : str)               (* anyOf(watchers.watching) = "i"            link set, link set (ids) *)
+| QWatchCount (n : Z)         (* count(watchers) >= n *)
+| QNoTags                     (* isEmpty(tags) *)
+| QSubHas (g : str)           (* not isEmpty(from watchers where name = "G<g>") *)
+| QSubCount (g : str) (n : Z) (* count(from watchers where name != "G<g>") >= n *)
+| QPage (v s l : Z)           (* val >= v sort by val desc, name skip s limit l *)
+| QGItemsName (n : str)       (* group store: anyOf(items.name) = "n" *)
+| QGItemsTag (t : str)        (* group store: anyOf(items.tags) = "t" *)
+| QGWatchTag (t : str)        (* group store: anyOf(watching.tags) = "t" *)
+| QGSub (v : Z)               (* group store: not isEmpty(from watching where val < v) *)
+| QGList (s l : Z).           (* group store: empty filter with paging *)
 
 Inductive answer :=
 | AIds (l : list str)
@@ -93,8 +113,49 @@ Definition val_desc_leb (a b : item) : bool :=
   else if i_val a <? i_val b then false
   else str_leb (i_id a) (i_id b).
 
+(* descending by val, ties by ascending name (names are unique) *)
+Definition val_desc_name_leb (a b : item) : bool :=
+  if i_val b <? i_val a then true
+  else if i_val a <? i_val b then false
+  else str_leb (i_name a) (i_name b).
+
+(* skip / limit as the scanners apply them; a negative value stands for "not set" *)
+Definition page {A} (s l : Z) (xs : list A) : list A :=
+  let r := skipn (Z.to_nat s) xs in
+  if l <? 0 then r else firstn (Z.to_nat l) r.
+
+(* the groups exist from the start and are never changed by the writer: "g0" "g1" "g2" *)
+Definition group_ids : list str := [[103; 48]; [103; 49]; [103; 50]]%N.
+
+Definition linked (s : wstate) (i g : str) : bool := existsb (pair_eqb (i, g)) (w_links s).
+Definition groups_of (s : wstate) (i : str) : list str := map snd (filter (fun p => str_eqb (fst p) i) (w_links s)).
+Definition items_of_group (s : wstate) (g : str) : list item := filter (fun x => opt_str_eqb (i_group x) g) (w_items s).
+Definition find_item (s : wstate) (i : str) : option item := find (fun x => str_eqb (i_id x) i) (w_items s).
+Definition has_tag (t : str) (x : item) : bool := existsb (str_eqb t) (i_tags x).
+
 Definition eval_query (q : query) (s : wstate) : answer :=
   match q with
+  | QList sk li => AIds (page sk li (map i_id (w_items s)))
+  | QAll => AIds (map i_id (w_items s))
+  | QF4 g => AIds (map i_id (items_of_group s g))
+  | QF5 g => AIds (map i_id (filter (fun x => linked s (i_id x) g) (w_items s)))
+  | QF6 t => AIds (map i_id (filter (fun x => match i_group x with
+                                               | Some g => existsb (has_tag t) (items_of_group s g)
+                                               | None => false end) (w_items s)))
+  | QF7 n => AIds (map i_id (filter (fun x => existsb (fun g => existsb (fun y => str_eqb (i_name y) n) (items_of_group s g))
+                                                        (groups_of s (i_id x))) (w_items s)))
+  | QF8 i => AIds (map i_id (filter (fun x => existsb (fun g => linked s i g) (groups_of s (i_id x))) (w_items s)))
+  | QWatchCount n => AIds (map i_id (filter (fun x => n <=? Z.of_nat (length (groups_of s (i_id x)))) (w_items s)))
+  | QNoTags => AIds (map i_id (filter (fun x => match i_tags x with [] => true | _ => false end) (w_items s)))
+  | QSubHas g => AIds (map i_id (filter (fun x => linked s (i_id x) g) (w_items s)))
+  | QSubCount g n => AIds (map i_id (filter (fun x => n <=? Z.of_nat (length (filter (fun g' => negb (str_eqb g' g)) (groups_of s (i_id x)))))
+                                            (w_items s)))
+  | QPage v sk li => AIds (page sk li (map i_id (sort_by val_desc_name_leb (filter (fun x => v <=? i_val x) (w_items s)))))
+  | QGItemsName n => AIds (filter (fun g => existsb (fun y => str_eqb (i_name y) n) (items_of_group s g)) group_ids)
+  | QGItemsTag t => AIds (filter (fun g => existsb (has_tag t) (items_of_group s g)) group_ids)
+  | QGWatchTag t => AIds (filter (fun g => existsb (fun x => linked s (i_id x) g && has_tag t x) (w_items s)) group_ids)
+  | QGSub v => AIds (filter (fun g => existsb (fun x => linked s (i_id x) g && (i_val x <? v)) (w_items s)) group_ids)
+  | QGList sk li => AIds (page sk li group_ids)
   | QLoad id => AItem (find (fun x => str_eqb (i_id x) id) (w_items s))
   | QName n => AIds (map i_id (filter (fun x => str_eqb (i_name x) n) (w_items s)))
   | QTag t => AIds (map i_id (filter (fun x => existsb (str_eqb t) (i_tags x)) (w_items s)))
